@@ -29,7 +29,9 @@ func (w *world) run() {
 		small = (small + 1) / 2 // the gzip table doubles the size of a case line
 	}
 	done, e, reorders := 0, 0, 0
-	for done < n && !w.isAborted() {
+	// a configuration is given up at the first epoch that recorded a failure (fail fast: a
+	// broken library must not cost one watchdog per epoch)
+	for done < n && !w.isAborted() && atomic.LoadInt32(&w.failed) == 0 {
 		nops := small
 		emit := raw && w.caseBytes < caseBudget
 		if !emit && w.cfg.Tier == "thorough" {
@@ -121,7 +123,7 @@ func (w *world) runEpoch(e, nops int, sched string, reorders int, emit bool) {
 			ep.conn.Close()
 		}
 		left := "all workers returned after the connections were cut"
-		t2 := time.NewTimer(10 * time.Second)
+		t2 := time.NewTimer(3 * time.Second)
 		select {
 		case <-workersDone:
 		case <-t2.C:
@@ -414,6 +416,9 @@ func (w *world) caseLine(p int, gzTab string) (inputs, observed string) {
 		resV[s] = VL(VL(comps...), VL(sv...))
 	}
 	inputs = VL(VN(int64(socket.MessageSizeLimit())), gzTab, callsV[0], callsV[1], framesV[0], framesV[1])
-	observed = VL(resV[0], resV[1])
+	// third component: the model also rebuilds every REPLY frame from the CALL frames an
+	// endpoint received (handler = the transform in world.go) and compares them byte for
+	// byte with the REPLY frames it really wrote (Corr/C01.v replies_match)
+	observed = VL(resV[0], resV[1], VS("true"))
 	return
 }
